@@ -31,7 +31,7 @@ CHECKS = {
  "C07": dict(engine="conc", level="exploration", ref="DESIGN.md 5 C07",
    technique=TECH + "2-4 simulated clients on shared keys; the hashed index is sampled at every scheduling step, giving the exact install order of generations, against which every call is attributed and justified",
    text="2-4 client threads issue short sequences (get, insert, delete, compare-and-swap, increment, insert-if-absent, JSON patch, TTL update, flush) on 1-3 shared keys, memory-only and persistent with the real flush workers, under random / sticky / PCT / starve-one schedules with preemption at every seam incl. the optimistic-read -> guarded-swap windows. The per-key sequence of installed generations (timestamp, length, expiry) is observed at every scheduling step; every successful modification must be attributable one-to-one to an installed generation inside its call interval (global event numbers), every transition must go to a strictly newer timestamp, created/swapped/incremented results must fit the predecessor generation (no lost increment, one winner per expected state), and every read, refusal or no-swap must be justified by a state inside the call interval or by one of the two conservative deviations of the property. Exploration level.",
-   note="Linearisation order is taken from the observed install order (trusts the read-only snapshot hook); preemption only at seams; values have unique lengths so that generations are identifiable; where generations cannot be told apart (8-byte counters installed at the same event stamp) every consistent attribution is tried and a violation is reported only if none explains the history. A directed family deletes and re-creates a key with exactly its previous explicit timestamp while a read-modify-write is in flight."),
+   note="Linearisation order is taken from the observed install order (trusts the read-only snapshot hook); preemption only at seams; values have unique lengths so that generations are identifiable; where generations cannot be told apart (8-byte counters installed at the same event stamp) every consistent attribution is tried and a violation is reported only if none explains the history. A directed family deletes and re-creates a key with exactly its previous explicit timestamp while a read-modify-write is in flight. A second, sequential stage (reference-model engine) covers what unique value lengths exclude from the concurrent one: swaps and patches that leave the value unchanged must still install a new generation with the new version."),
  "C08": dict(engine="conc", level="exploration", ref="DESIGN.md 5 C08",
    technique=TECH + "readers against writers/flusher on tiny devices with immediate block reuse; per-read genuineness oracle plus device-side monitor of writes over pinned extents",
    text="Persistent stores on 8-16 block devices (freed blocks are reused at once), cache on and off, single- and multi-block values: readers (get, get_bytes, range, compare-and-swap, increment) race writers, deleters, TTL rewrites, explicit flushes and the background workers, with yield sites around pin / sector load / pread / identity check and between retire, marker write and release. Each read must return byte-for-byte a value written to that key whose generation was current inside the call interval, not-found only if the key was absent/expired inside it, StaleExtent only if a modification overlapped; the simulated device flags any write that overlaps an extent a reader has pinned.",
